@@ -13,6 +13,7 @@ from ..harness import Query
 ID = 'C02'
 DEFAULT_FEATURES = True   # fast-check data is part of the graph state
 BUILD_PROBES = True   # evidence: the states behind the recorded findings are produced by the real builder
+QUERY_SLICES = 2      # the slow obligations of one cube (up to ~4 min each) are decided on different cores
 ASSUMPTIONS = [
     'graph state satisfies the representation invariant of DESIGN.md section 3 (module specifier = key, no self-redirect, distinct dependency texts, code-only graphs carry no type data)',
     'CheckJsOption::Custom is a pure predicate; logging is disabled; Url is an atom with a symbolic scheme; specifier text only matters through key equality and the attribute "lower-cased text starts with file://"',
@@ -146,6 +147,7 @@ def build(mir, cube):
                 rid = d[3][2]
                 # resolution failures carry the referring range; in-place missing errors carry the missing specifier
                 ok_id.append(z3.And(c, z3.Or(z3.And(e['cat'] != 0, e['rid'] == rid), z3.And(e['cat'] == 0, orc.missing_at(e['spec'])))))
+        # (a case split on the error category was tried and made z3 3-6x slower per case: one query it stays)
         qs.append(Query('reported-error-identifies-a-reachable-failure', z3.And(val.is_err, z3.Not(Or(ok_id))), ops=[val], world=w, known=known[1:]))
     # vacuity witnesses
     qs.append(Query('witness-fails', z3.And(val.is_err, inplace), expect='sat', kind='witness', ops=[val], world=w))
